@@ -649,7 +649,12 @@ func (e *Engine) sliceOp(fr *frame, x *ssa.Slice, reach string, heap Heap) Val {
 			hi = e.toInt64(e.scalar(e.operand(fr, x.High)), x.High.Type())
 		}
 		e.panicSite(fr, x, reach, and(app("bvsle", bvLit(0, 64), lo), app("bvsle", lo, hi), app("bvsle", hi, bvLit(uint64(at.Len()), 64))), "slice-bounds")
-		// slice aliases the array object: model by copying into a fresh backing array
+		if len(pv.Path) == 0 {
+			// an array object of its own (a variable): its elements share the component of slice
+			// elements, so the slice simply aliases it
+			return SliceVal{pv.Base, lo, e.sc.define("sl", SI64, e.sc.subS(hi, lo))}
+		}
+		// an array inside a struct or another array: model by copying into a fresh backing array
 		// (sound only if the array is not written through afterwards; writes through the slice
 		// are then not visible in the array). Flag it.
 		e.warn("slice of array %s modelled by copy at %s", xt.Elem(), e.posOf(x.Pos()))
